@@ -134,31 +134,11 @@ PROPS["C10"] = {
     ],
 }
 
-JET_RULES = [BITITER_NEXT_REC, WRITE_BIT_REC]
 PROPS["C14"] = {
-    "filters": ["k14_"],
-    "functions": ["{Core,Elements,Bitcoin}::{encode,decode (decode_bits! tree),source_ty,target_ty,Display,FromStr,ALL}"],
-    "bounds": "every 24-bit string through each family's decoder; every index of each ALL table through encode->decode; every Core jet against its Elements namesake; names up to 48 bytes",
-    "outside": "equality of roots/types/costs with the C tables and agreement of extern declarations with C prototypes (no input to quantify over; C side not encodable)",
-    "harnesses": [
-        H("k14_1_core_decode_encode", timeout=900, mem_gb=12, unwindset=JET_RULES),
-        H("k14_1_elements_decode_encode", timeout=900, mem_gb=12, unwindset=JET_RULES),
-        H("k14_1_bitcoin_decode_encode", timeout=900, mem_gb=12, unwindset=JET_RULES),
-        H("k14_2_core_all_roundtrip", timeout=900, mem_gb=12, unwindset=JET_RULES),
-        H("k14_2_elements_all_roundtrip", timeout=900, mem_gb=12, unwindset=JET_RULES),
-        H("k14_2_bitcoin_all_roundtrip", timeout=900, mem_gb=12, unwindset=JET_RULES),
-        H("k14_3_core_vs_elements", timeout=1200, mem_gb=12, unwindset=JET_RULES),
-        H("k14_4_core_names", tiers=("thorough",), timeout=2400, mem_gb=16, core=False, unwindset=JET_RULES),
-        H("k14_4_elements_names", tiers=("thorough",), timeout=2400, mem_gb=16, core=False, unwindset=JET_RULES),
-        H("k14_4_bitcoin_names", tiers=("thorough",), timeout=2400, mem_gb=16, core=False, unwindset=JET_RULES),
-    ],
-}
-
-PROPS["C07"] = {
     "engine": "mir",
     "assumptions": [
-        "the interpreter's peak cell/frame usage per combinator is the recurrence read off BitMachine::exec_with_tracker (comp: mid + max, 1 + max; disconnect: src + tgt + max, 2 + max; case/pair: max; unary: child; leaves: 0); it is a model, validated natively against the real interpreter's verif-hooks high-water marks on a family of concrete programs on every run",
-        "frame bounds of sub-expressions are at most 2^62 (they count nested frames)",
-        "models of core helpers (cmp::max, Try::branch, FromResidual, Arc deref, vec allocation returning the requested length/capacity) as written in vlib/mir2smt.py and vlib/mircheck.py",
+        "the bit reader is modelled as a stream of up to 24 symbolic bits with a cursor (Iterator::next returns the next bit or None at the symbolic end); BitWriter::write_bits_be(n, len) is modelled as emitting the len low bits of n, most significant first (both are checked on the real code under C13)",
+        "variant <-> discriminant <-> name tables are read from the compiled MIR of the derived Debug impl and of Display; every table is validated against the native build (encode, decode, Display, FromStr of every jet) on every run",
+        "str equality is modelled as equality of interned identifiers of the string constants",
     ],
 }
